@@ -261,7 +261,7 @@ func partErr(err error) string {
 	case errors.Is(err, api.ErrInvalidFormat):
 		return "invalidformat"
 	}
-	return "unreadable(" + normErr(err.Error()) + ")"
+	return "unreadable(" + errClass(err) + ")"
 }
 
 func readPart(b []byte, err error) oPart {
@@ -282,13 +282,13 @@ func observeRing(open func() (api.KeyRing, error)) (o *oRing) {
 	}()
 	ring, err := open()
 	if err != nil {
-		o.err = normErr(err.Error())
+		o.err = errClass(err)
 		o.absent = errors.Is(err, backendAPI.ErrNotExist)
 		return o
 	}
 	seqs, err := ring.AllKeys()
 	if err != nil {
-		o.err = "AllKeys: " + normErr(err.Error())
+		o.err = "AllKeys: " + errClass(err)
 		return o
 	}
 	for i := len(seqs) - 1; i >= 0; i-- {
@@ -306,7 +306,7 @@ func observeRing(open func() (api.KeyRing, error)) (o *oRing) {
 	}
 	c, err := ring.CurrentKey()
 	if err != nil {
-		o.curErr = normErr(err.Error())
+		o.curErr = errClass(err)
 	} else {
 		o.current = c
 	}
@@ -1090,7 +1090,7 @@ func (m *monitor) checkRingListing(c *ringCtx, phase string, ks api.KeyStore) {
 	case out.Panic != nil:
 		m.ringViolate(c, phase, "listing-panic(ListKeyRings@"+ksrig.FaultPanicSite(out.PanicStack)+")", map[string]interface{}{"panic": fmt.Sprint(out.Panic)})
 	case out.Err != nil:
-		m.ringViolate(c, phase, "listing-broken(ListKeyRings:"+normErr(out.Err.Error())+")", nil)
+		m.ringViolate(c, phase, "listing-broken(ListKeyRings:"+errClass(out.Err)+")", nil)
 	default:
 		sort.Strings(rings)
 		for _, want := range []string{ringBystander, ringTarget} {
@@ -1251,7 +1251,7 @@ func (m *monitor) ringCaseInner(c *ringCtx) {
 			// the keystore's own conflict detection ("concurrent keystore modification", "duplicate key with seqnum") refuses ONE write
 			// made from a view that is behind the storage — e.g. after a rename that was performed but reported as failed — and
 			// re-reads the ring while doing so. The write is offered once more; a keystore that refuses it again does not accept it.
-			first := normErr(fo.Err.Error())
+			first := errClass(fo.Err)
 			fo = attempt()
 			r.Count("ring_followup_second_attempts", 1)
 			if fo.Panic == nil && fo.Err == nil {
@@ -1266,7 +1266,7 @@ func (m *monitor) ringCaseInner(c *ringCtx) {
 		}
 		ferr = fo.Err
 		if ferr != nil {
-			etxt := normErr(ferr.Error())
+			etxt := errClass(ferr)
 			switch {
 			case strings.Contains(etxt, "key path already exists") && staleNew(live):
 				// the known stale '<ring>.keyring.new' (left by this fault point) blocks every later write of the ring. One cause, one
